@@ -39,7 +39,7 @@ type Case struct {
 
 var parents = []string{"master", "master", "master", "extendable", "extendable", "master-expired", "master-foreign-cipher", "master-unknown-contract", "master-badsig", "ordinary", "extendable-expired", "garbage"}
 var channels = []string{"a/", "a/b/", "a/#/", "+/b/", "a/b/c/", "+/", "a/+/", "#/", "a/b/#/", "b/", "x/y/z/",
-	"a", "a/b", "", "a//", "a/ b/", strings.Repeat("l/", 23), strings.Repeat("l/", 24), strings.Repeat("l/", 23) + "#/"}
+	"a", "a/b", "", "a//", "a/ b/", "a#/", "a/b#/", "#a/", "a/#b/", "+a/", strings.Repeat("l/", 23), strings.Repeat("l/", 24), strings.Repeat("l/", 23) + "#/"}
 var ttls = []int64{0, 0, 1, 60, 3600, 86400, 10000000, -1, -3600, -10000000, 2147483647, -2147483648, -600000000, -500000000}
 
 func genCase(t *rapid.T) Case {
@@ -318,6 +318,23 @@ func run(c Case) vkit.Result {
 	if !validTarget.MatchString(c.Channel) {
 		// channels with empty levels or characters outside the channel alphabet are not channels any request can name;
 		// the statement's "targets exactly the requested channel" has no meaning for them (counted, not asserted)
+		// ... but it must still not be MORE powerful than what was asked for: of a few ordinary channels it may authorize at
+		// most the one the request degenerates to when empty levels are dropped (a// -> a/)
+		var lv []string
+		for _, l := range strings.Split(c.Channel, "/") {
+			if l != "" {
+				lv = append(lv, l)
+			}
+		}
+		norm := strings.Join(lv, "/") + "/"
+		if !k.IsExpired() && k.Permissions() != 0 {
+			need := k.Permissions() & -k.Permissions()
+			for _, probe := range []string{"a/", "b/", "zz/", "a/b/", "c/d/"} {
+				if _, _, ok := e.b.S.Authorize(security.ParseChannel([]byte(outKey+"/"+probe)), need); ok && probe != norm {
+					return vkit.Failf("a key requested for the odd channel %q authorizes %q", c.Channel, probe)
+				}
+			}
+		}
 		return vkit.Result{Excluded: true, Labels: append(labels, "issued-for-malformed-channel")}
 	}
 	path, h := targetBytes(wantChannel)
